@@ -218,7 +218,9 @@ func checkC17(c *Ctx) {
 		}
 	}
 	// literals needing care
-	for _, s := range []string{"''", `'\''`, `'\\'`, `'a\nb\tc\r'`, `'é'`, `'é'`, `'}'`, `'"'`, "1e3", "1.5e-2", "2.0", "100.0", "1e21", "1e-7", "6.02e23", "2.5e300", "-1e22", "1e20", "123456789012345678901.0", "1e21 * $x", "[1e21, 2]", "f(1e22)", "$a[1e21]", "1.5e-300", "1e21 ? 1e22 : 1e23", "0.000001", "123456789.5", "-2.0", "-0", "0", "-9223372036854775807",
+	for _, s := range []string{"''", `'\''`, `'\\'`, `'a\nb\tc\r'`, `'é'`, `'é'`, `'}'`, `'"'`, "1e3", "1.5e-2", "2.0", "100.0", "1e21", "1e-7", "6.02e23", "2.5e300", "-1e22", "1e20", "123456789012345678901.0", "1e21 * $x", "[1e21, 2]", "f(1e22)", "$a[1e21]", "1.5e-300", "1e21 ? 1e22 : 1e23",
+		// strings and map keys with characters that are not printable, in and outside the basic plane
+		"'\U000E0001'", "['\U000E0001': 1]", "['\U000E0001': 1, '\uE0001': 2]", "['\u200b': 1]", "['a\x01b': 2]", "['\U0010FFFF\U0001F600': '\U000F0000']", "'\x7f\u0085'", "['\ufffe': [1]]", "0.000001", "123456789.5", "-2.0", "-0", "0", "-9223372036854775807",
 		"0x1F", "[]", "[:]", "[1]", "[1, [2, [3]]]", "['a': 1]", "['a': 1, 'b': ['c': [:]]]", `['it\'s': 1]`, `['a b': 1, 'c,d': 2, 'e:f': 3]`, "['z': 1, 'y': 2, 'x': 3, 'w': 4]",
 		"f()", "f(1)", "f(1, 'a', $x)", "f(g(h(1)))", "a.b.c", "$ij.a", "$a.b?.c[0]?[1].2?.3", "$a[$b[$c]]", "$a['k']", "$a[1 + 2]", "$a?[not $b]",
 		"[1 + 2, $a ? 1 : 2]", "['k': 1 + 2, 'j': $a ?: 3]", "f(1 + 2, not $a)", "$a[$b ? 1 : 2]", "not f(1)", "-f(1)", "-$a.b", "not $a.b", "- -1", "-(-1)", "- - $a", "not not $a",
